@@ -247,8 +247,33 @@ def flatten(d, out=None):
     return out
 
 
+def _process_freename(ctx: Ctx, c: dict) -> None:
+    """an expression that mentions a name which is not a variable of the dict: the name is not resolvable, so the result may
+    not depend on what the reader's own code happens to call its variables, nor on the state of the process"""
+    from dictIO import DictReader
+    ctx.case(c, True, ("freename",))
+    outs = []
+    for nm in (c["name"], "qqq_neutral"):
+        for start in (None, 41, 7):
+            try:
+                with impl.scratch() as td:
+                    (td / "f").write_text(f'x 3;\ny "$x + {nm}";\n')
+                    reset_globals(start)
+                    outs.append(impl.plain(DictReader.read(td / "f")).get("y"))
+            except Exception as e:  # noqa: BLE001
+                ctx.violation("DictReader.read raises", c, repr(e), "result"); return
+    want = [o.replace("qqq_neutral", c["name"]) if isinstance(o, str) else o for o in outs[3:]]
+    if not (same(outs[0], outs[1]) and same(outs[0], outs[2])):
+        ctx.violation("the value of an expression with a free name depends on the state of the placeholder counter", c, enc(outs[:3]), "one value")
+    elif not same(outs[:3], want):
+        ctx.violation("a name that is no variable of the dict is resolved from the reader's own local variables", c, enc(outs[:3]), enc(want))
+
+
 def process(ctx: Ctx, cases: list[dict]) -> None:
     from dictIO import DictReader
+    for c in [c for c in cases if c.get("kind") == "freename"]:
+        _process_freename(ctx, c)
+    cases = [c for c in cases if c.get("kind") != "freename"]
     reqs = []
     for c in cases:
         fs = []
@@ -355,6 +380,15 @@ def run(ctx: Ctx) -> None:
     cases = []
     for e in getattr(ctx, "fixed_witnesses", []):
         cases.append(e["witness"]); ctx.corpus_cases += 1
+    # names the reader's own code uses for its local variables (taken from the tree under test), as free names in expressions
+    try:
+        from dictIO import DictReader as _DR
+        local_names = sorted(set(_DR._eval_expressions.__code__.co_varnames) | set(_DR._resolve_reference.__code__.co_varnames) | set(_DR.read.__code__.co_varnames))
+    except Exception:  # noqa: BLE001
+        local_names = ["key", "item", "expression", "variables"]
+    for nm in local_names + ["undefined_name", "logger"]:
+        if nm.isidentifier() and not nm.startswith("__"):
+            cases.append({"kind": "freename", "name": nm})
     corpus = [{"a": ("lit", 1), "ab": ("lit", 20), "c": ("expr", "$a + $ab", ["a", "ab"])},
               {"x": ("lit", 1), "x1": ("lit", 5), "y": ("expr", "$x + $x1", ["x", "x1"])},
               {"a": ("ref", "b"), "b": ("ref", "a"), "k": ("lit", 1)},
